@@ -216,7 +216,8 @@ type RunCase struct {
 	Debug    bool `json:"debug,omitempty"`
 	Validate bool `json:"validate,omitempty"`
 	CfgOnly  bool `json:"cfgonly,omitempty"`
-	// Lists: what a third of the nodes hold instead of a single value: 1 a leaf-list without entries, 2 one with several
+	// Lists: what a third of the nodes hold instead of a single value: 1 a leaf-list without entries, 2 one with several,
+	// 3 an invalid datum (what a data tree, foreign code, may hand out for a value it cannot represent)
 	Lists int `json:"lists,omitempty"`
 }
 
@@ -233,6 +234,9 @@ func (c RunCase) listValues(tr *tree.Tree) {
 		}
 		if h%3 != 0 {
 			return xpath.NewLiteralDatum(tree.DefaultValue(id)), nil
+		}
+		if c.Lists == 3 {
+			return xpath.NewInvalidDatum(), nil
 		}
 		var ds []xpath.Datum
 		if c.Lists == 2 {
@@ -306,7 +310,7 @@ func genRun(t *rapid.T) RunCase {
 	c.Debug = rapid.IntRange(0, 2).Draw(t, "debug") == 1
 	c.Validate = rapid.IntRange(0, 3).Draw(t, "validate") == 1
 	c.CfgOnly = rapid.IntRange(0, 4).Draw(t, "cfgonly") == 1
-	c.Lists = []int{0, 0, 1, 2}[rapid.IntRange(0, 3).Draw(t, "lists")]
+	c.Lists = []int{0, 0, 1, 2, 3}[rapid.IntRange(0, 4).Draw(t, "lists")]
 	return c
 }
 
@@ -375,6 +379,12 @@ func checkRun(c RunCase) fw.Outcome {
 		out.Labels = append(out.Labels, "run-value")
 	}
 	if msg := accessorsSafe(res); msg != "" {
+		if c.Lists == 3 && strings.HasPrefix(msg, "neither a value nor an error") {
+			// (the tree handed out values that are none: that the result has no form is the tree's doing; what is asked
+			// of the library is that nothing panics)
+			out.Labels = append(out.Labels, "invalid-datum-result")
+			return out
+		}
 		out.Violation = fmt.Sprintf("%s %q at %s (%s): %s", c.Grammar, c.Src, c.Ctx, c.Mode, msg)
 	}
 	return out
